@@ -603,6 +603,7 @@ func c15KeyFromValue(c *Ctx, p *core.Prog) {
 				}
 				whole := false
 				single := ""
+				var keyFn *ssa.Function
 				var walk func(v ssa.Value, d int)
 				seen := map[ssa.Value]bool{}
 				walk = func(v ssa.Value, d int) {
@@ -612,12 +613,16 @@ func c15KeyFromValue(c *Ctx, p *core.Prog) {
 					seen[v] = true
 					switch x := v.(type) {
 					case *ssa.Call:
-						for _, a := range x.Call.Args {
-							if a == mu.Value || (cell != nil && a == cell) {
-								whole = true
-							}
+						for ai, a := range x.Call.Args {
+							isWhole := a == mu.Value || (cell != nil && a == cell)
 							if u, ok := a.(*ssa.UnOp); ok && cell != nil && u.X == cell {
+								isWhole = true
+							}
+							if isWhole {
 								whole = true
+								if f := x.Call.StaticCallee(); f != nil && f.Blocks != nil && ai == 0 && f.Signature.Recv() != nil && core.NamedOf(core.Deref(f.Signature.Recv().Type())) == vt {
+									keyFn = f
+								}
 							}
 							walk(a, d+1)
 						}
@@ -644,6 +649,9 @@ func c15KeyFromValue(c *Ctx, p *core.Prog) {
 				}
 				walk(mu.Key, 0)
 				switch {
+				case whole && keyFn != nil && len(c15MissingKeyFields(keyFn, vt)) > 0:
+					miss := c15MissingKeyFields(keyFn, vt)
+					r.Violate("key-from-value", key, p.Pos(mu.Pos()), "the map entry is keyed by "+vt.Obj().Name()+"."+keyFn.Name()+"(), whose result never contains the field "+strings.Join(miss, ", ")+" (it is at most tested there): two different "+vt.Obj().Name()+" values that differ only in "+strings.Join(miss, ", ")+" overwrite each other, so one of the written names is missing from the result")
 				case whole:
 					r.OK("key-from-value", key, p.Pos(mu.Pos()), "key computed from the whole value")
 				case single != "":
@@ -655,4 +663,109 @@ func c15KeyFromValue(c *Ctx, p *core.Prog) {
 		}
 	}
 	r.Extra("struct_valued_map_updates", n)
+}
+
+// c15MissingKeyFields: the fields of the struct type vt whose value never flows (by data, not by control) into a result of
+// the method keyFn of vt. Data flow is followed backwards from each returned value through every operand, through
+// the stores into local arrays and cells (variadic lists, slices built by append), and stops at loads of receiver fields.
+func c15MissingKeyFields(keyFn *ssa.Function, vt *types.Named) []string {
+	st := core.StructOf(vt)
+	if st == nil || len(keyFn.Params) == 0 {
+		return nil
+	}
+	recv := keyFn.Params[0]
+	isRecv := func(v ssa.Value) bool {
+		if v == ssa.Value(recv) {
+			return true
+		}
+		if u, ok := v.(*ssa.UnOp); ok && u.Op == token.MUL {
+			v = u.X
+		}
+		if a, ok := v.(*ssa.Alloc); ok { // spilled value receiver
+			for _, ref := range core.Referrers(a) {
+				if s, ok := ref.(*ssa.Store); ok && s.Addr == ssa.Value(a) && s.Val == ssa.Value(recv) {
+					return true
+				}
+			}
+		}
+		return false
+	}
+	got := map[string]bool{}
+	seen := map[ssa.Value]bool{}
+	var walk func(v ssa.Value)
+	walk = func(v ssa.Value) {
+		if v == nil || seen[v] {
+			return
+		}
+		seen[v] = true
+		switch x := v.(type) {
+		case *ssa.Field:
+			if isRecv(x.X) {
+				got[core.FieldName(x.X.Type(), x.Field)] = true
+				return
+			}
+		case *ssa.FieldAddr:
+			if isRecv(x.X) {
+				got[core.FieldName(x.X.Type(), x.Field)] = true
+				return
+			}
+		case *ssa.Parameter:
+			if x == recv {
+				// the whole receiver flows into the result (passed on to another function): every field may be in it
+				for i := 0; i < st.NumFields(); i++ {
+					got[st.Field(i).Name()] = true
+				}
+			}
+			return
+		case *ssa.Alloc:
+			for _, ref := range core.Referrers(x) {
+				switch r := ref.(type) {
+				case *ssa.Store:
+					if r.Addr == ssa.Value(x) {
+						walk(r.Val)
+					}
+				case *ssa.IndexAddr:
+					for _, r2 := range core.Referrers(r) {
+						if s, ok := r2.(*ssa.Store); ok && s.Addr == ssa.Value(r) {
+							walk(s.Val)
+						}
+					}
+				case *ssa.FieldAddr:
+					for _, r2 := range core.Referrers(r) {
+						if s, ok := r2.(*ssa.Store); ok && s.Addr == ssa.Value(r) {
+							walk(s.Val)
+						}
+					}
+				}
+			}
+			return
+		}
+		if in, ok := v.(ssa.Instruction); ok {
+			for _, op := range in.Operands(nil) {
+				if op != nil && *op != nil {
+					walk(*op)
+				}
+			}
+		}
+	}
+	n := 0
+	for _, b := range keyFn.Blocks {
+		if ret, ok := b.Instrs[len(b.Instrs)-1].(*ssa.Return); ok {
+			for _, res := range ret.Results {
+				n++
+				walk(res)
+			}
+		}
+	}
+	if n == 0 {
+		return nil
+	}
+	var miss []string
+	for i := 0; i < st.NumFields(); i++ {
+		if !got[st.Field(i).Name()] {
+			miss = append(miss, st.Field(i).Name())
+		}
+	}
+	sort.Strings(miss)
+	return miss
 }
